@@ -2,7 +2,10 @@
 
 Model: lean/DulwichModel/Model/WorkTree.lean; theorems: Props/C18.lean.
 Tie: translate() regenerates Gen/WorkTree.lean (cleanup_mode constants, the stat fields the short-cut
-compares, what the staged / unstaged comparisons look at, INVALID_DOTNAMES); run() drives the
+compares, what the staged / unstaged comparisons look at, INVALID_DOTNAMES, and which variant of each
+behaviour repaired by the C18 fix series the source has: mode comparison and its position, handling of
+NotADirectoryError, link resolution in path_to_tree_path, links to directories in the walk, strict path
+decoding, order of deletions and writes in update_working_tree); run() drives the
 correspondence streams (model vs real dulwich on scratch repositories) and the direct oracle
 (brute-force three-way comparison of HEAD tree / index / directory done by this harness, plus C git).
 """
